@@ -163,6 +163,28 @@ pub fn corpus() -> Vec<(String, String)> {
     for (i, p) in history_programs().into_iter().enumerate() {
         v.push((format!("history{i}"), p));
     }
+    // user names inside the namespaces the compiler generates fresh names in (`x<n>` for variables,
+    // `a<n>` for covariables), with and without gaps between the indices: every pair of five
+    // variable names x every pair of three label names
+    let xs = ["x0", "x1", "x2", "x5", "x10"];
+    let aa = ["a0", "a1", "a5"];
+    for i in 0..xs.len() {
+        for j in i + 1..xs.len() {
+            for k in 0..aa.len() {
+                for l in k + 1..aa.len() {
+                    let (p, q, a, b) = (xs[i], xs[j], aa[k], aa[l]);
+                    v.push((
+                        format!("generated-names/{p}-{q}/{a}-{b}"),
+                        format!(
+                            "def pick({p}: i64, {q}: i64): i64 {{ let r: i64 = if {p} < {q} {{ {q} - {p} }} else {{ {p} - {q} }}; label {a} {{ label {b} {{ if r == 0 {{ goto {a} (1) }} else {{ if r == 1 {{ goto {b} (2) }} else {{ r * ({p} + {q}) }} }} }} }} }}
+                             def main({p}: i64, {q}: i64): i64 {{ println_i64(pick({p}, {q}) + pick({q}, {p})); 0 }}
+"
+                        ),
+                    ));
+                }
+            }
+        }
+    }
     // several instances of several polymorphic types in one program
     v.push((
         "instances".into(),
@@ -440,5 +462,61 @@ fn environment_part(rep: &mut Report) {
             }
         }
     }
+    tool_route_part(&scc, &base, rep);
     let _ = std::fs::remove_dir_all(&base);
+}
+
+/// The full `codegen` route hands files to external tools (yasm / as, gcc). Stand-ins for the tools
+/// (shell scripts that only log their arguments, check that every input file exists and create the
+/// requested output) own that seam: in a fresh output directory every file a tool is asked to read
+/// must have been written by this very invocation — for every shape of source file name (extra
+/// dots, spaces, a dotted directory) and both backends that have an assembler step.
+fn tool_route_part(scc: &std::path::Path, base: &std::path::Path, rep: &mut Report) {
+    use std::os::unix::fs::PermissionsExt;
+    let stubs = base.join("stubs");
+    let _ = std::fs::create_dir_all(&stubs);
+    let script = "#!/bin/sh\n# stand-in for an external tool: logs, checks inputs, creates the output\nname=${0##*/}\nout=\nskip=0\nline=\"$name\"\nfor a in \"$@\"; do\n  line=\"$line|$a\"\n  if [ $skip = 1 ]; then skip=0; continue; fi\n  if [ $skip = 2 ]; then out=\"$a\"; skip=0; continue; fi\n  case \"$a\" in\n    -o) skip=2;;\n    -f) skip=1;;\n    -*) ;;\n    *) if [ ! -e \"$a\" ]; then echo \"MISSING|$name|$a\" >> \"$STUB_LOG\"; fi;;\n  esac\ndone\necho \"$line\" >> \"$STUB_LOG\"\nif [ -n \"$out\" ]; then : > \"$out\"; fi\nexit 0\n";
+    for tool in ["yasm", "as", "gcc"] {
+        let p = stubs.join(tool);
+        if std::fs::write(&p, script).is_err() {
+            rep.machinery("cannot write tool stand-ins");
+            return;
+        }
+        let _ = std::fs::set_permissions(&p, std::fs::Permissions::from_mode(0o755));
+    }
+    let src = "def main(n: i64, m: i64): i64 { println_i64(n * m); 0 }\n";
+    let names = ["prog.sc", "prog.v2.sc", "a b.sc", "p-1_x.sc", "x.tar.gz.sc", "dir.d/inner.sc", "dir.d/in.ner.sc"];
+    for (ni, fname) in names.iter().enumerate() {
+        for backend in ["x86-64", "aarch64"] {
+            let wd = base.join(format!("tools-{ni}-{backend}"));
+            let file = wd.join(fname);
+            let _ = std::fs::create_dir_all(file.parent().unwrap());
+            std::fs::write(&file, src).unwrap();
+            let log = wd.join("stub.log");
+            let mut cmd = Command::new(scc);
+            cmd.current_dir(&wd).env_clear().env("PATH", &stubs).env("STUB_LOG", &log);
+            cmd.arg("codegen").arg(fname).arg(backend);
+            let out = cmd.output();
+            rep.count("cases", 1);
+            rep.count("transitions", 1);
+            rep.distinct.push(hash64(&("tools", fname, backend)));
+            let text = std::fs::read_to_string(&log).unwrap_or_default();
+            let invocations = text.lines().filter(|l| !l.starts_with("MISSING|")).count();
+            rep.count("tool_invocations_observed", invocations as u64);
+            rep.count("states", invocations as u64);
+            let cj = json!({"kind": "env", "program": format!("tool route, source file {fname}"), "env_a": backend, "env_b": "stand-in tools"});
+            if let Some(m) = text.lines().find(|l| l.starts_with("MISSING|")) {
+                rep.violation(
+                    "tool-route".to_string(),
+                    format!("`scc codegen {fname:?} {backend}` in a fresh directory asks an external tool to read a file it has not written: {m} (all invocations: {:?})", text.lines().filter(|l| !l.starts_with("MISSING|")).collect::<Vec<_>>()),
+                    cj,
+                );
+            } else if invocations < 2 {
+                let status = out.map(|o| format!("{:?} {}", o.status.code(), String::from_utf8_lossy(&o.stderr).chars().take(200).collect::<String>())).unwrap_or_default();
+                rep.violation("tool-route".to_string(), format!("`scc codegen {fname:?} {backend}` ran {invocations} external tool(s) instead of assembler and linker ({status})"), cj);
+            } else {
+                rep.count("traces_validated_against_impl", 1);
+            }
+        }
+    }
 }
